@@ -786,6 +786,9 @@ fn dedent(s: &str) -> String {
 
 // ------------------------------------------------------------------------------------------------
 
+/// corpus entries that are not documents of the language and must be rejected (Err, not Ok, not a panic)
+const MUST_FAIL: &[&str] = &["union-eq-no-members", "empty-selection", "empty-doc", "only-comment", "int-then-name", "enum-true"];
+
 /// fixed witnesses and regression inputs, always run first
 fn corpus() -> Vec<(Kind, &'static str, &'static str, bool)> {
     vec![
@@ -824,6 +827,8 @@ fn corpus() -> Vec<(Kind, &'static str, &'static str, bool)> {
         (Kind::Ts, "type-implements-no-body", "type A implements I", true),
         (Kind::Ts, "type-directive-no-body", "type A @d", true),
         (Kind::Ts, "union-no-members", "union U", true),
+        (Kind::Ts, "union-directive-no-members", "union U @d", true),
+        (Kind::Ts, "union-desc-no-members-then-type", "\"d\" union U type A implements I scalar S", true),
         (Kind::Ts, "union-eq-no-members", "union U =", false),
         (Kind::Ts, "union-leading-bar", "union U = | A | B", true),
         (Kind::Ts, "implements-leading-amp", "type A implements & I & J { f: Int }", true),
@@ -848,7 +853,9 @@ struct Ctx { cases: Cases, distinct: HashSet<String>, stats: BTreeMap<String, u6
 impl Ctx {
     fn bump(&mut self, k: &str) { *self.stats.entry(k.to_string()).or_insert(0) += 1; }
     /// runs one text; `canon`: erased AST of the canonical rendering this text must agree with
-    fn add(&mut self, kind: Kind, src: &str, stream: &str, file: usize, canon: Option<&Option<String>>, in_lang: bool, extra: serde_json::Value) -> (bool, Option<String>) {
+    fn add(&mut self, kind: Kind, src: &str, stream: &str, file: usize, canon: Option<&Option<String>>, expect: u8, extra: serde_json::Value) -> (bool, Option<String>) {
+        // expect: 0 = nothing known, 1 = a document of the language (must parse, property applies), 2 = not in the language (must be rejected)
+        let in_lang = expect == 1;
         let nchars = src.chars().count();
         if nchars > self.max_len { self.bump("skipped_too_long"); return (false, None); }
         let tree = pest_tree(kind, src);
@@ -862,14 +869,12 @@ impl Ctx {
         }
         let term = format!("{} {} {} {} {} {} {}",
             match kind { Kind::Op => "COp", Kind::Ts => "CTs" }, file, coq_str(src),
-            match &tree { None => "None".to_string(), Some((t, _)) => format!("(Some {})", t) }, ast_term, coq_bool(canon_same), coq_bool(in_lang));
+            match &tree { None => "None".to_string(), Some((t, _)) => format!("(Some {})", t) }, ast_term, coq_bool(canon_same), expect);
         // known-finding classes: a flag set by the generator for a construct + the failure mode that construct has
         let mut spec_classes: Vec<String> = vec![];
         if let Some(fl) = extra.get("constructs").and_then(|v| v.as_array()) {
             for f in fl {
                 match (f.as_str().unwrap_or(""), outcome.as_str()) {
-                    ("object-type-without-fields", "err") => spec_classes.push("object-type-without-fields-rejected".into()),
-                    ("union-without-members", "err") => spec_classes.push("union-without-members-rejected".into()),
                     ("surrogate-pair-escape", "panic1") => spec_classes.push("surrogate-pair-escape-panics".into()),
                     _ => {}
                 }
@@ -877,7 +882,7 @@ impl Ctx {
         }
         let mut d = json!({"kind": match kind { Kind::Op => "operation", Kind::Ts => "type-system" }, "stream": stream, "text": src, "file": file,
             "impl_outcome": outcome, "pairs": tree.as_ref().map(|t| t.1), "canon_same": canon_same,
-            "has_lone_cr": lone_cr, "block_raw_ne_cooked": block_raw_ne_cooked, "spec_lexable": toks.is_some(), "in_lang": in_lang, "spec_classes": spec_classes});
+            "has_lone_cr": lone_cr, "block_raw_ne_cooked": block_raw_ne_cooked, "spec_lexable": toks.is_some(), "in_lang": in_lang, "expect": expect, "spec_classes": spec_classes});
         if let (Some(o), Some(e)) = (d.as_object_mut(), extra.as_object()) { for (k, v) in e { o.insert(k.clone(), v.clone()); } }
         self.bump(&format!("stream:{stream}"));
         self.bump(&format!("outcome:{outcome}"));
@@ -907,35 +912,33 @@ fn main() {
     // 0. corpus
     for (kind, name, text, in_lang) in corpus() {
         let constructs: Vec<&str> = match name {
-            "type-no-body" | "type-implements-no-body" => vec!["object-type-without-fields"],
-            "union-no-members" => vec!["union-without-members"],
             "surrogate-pair" => vec!["surrogate-pair-escape"],
             _ => vec![],
         };
-        cx.add(kind, text, "corpus", 0, None, in_lang, json!({"corpus": name, "constructs": constructs}));
+        cx.add(kind, text, "corpus", 0, None, if MUST_FAIL.contains(&name) { 2 } else if in_lang { 1 } else { 0 }, json!({"corpus": name, "constructs": constructs}));
     }
     // 0b. deep nesting (the model's fuel must suffice: a PFuel result never agrees)
     for depth in [40usize, 120] {
         let list = format!("{{a(x:{}1{})}}", "[".repeat(depth), "]".repeat(depth));
-        cx.add(Kind::Op, &list, "corpus", 0, None, true, json!({"corpus": format!("deep-list-{depth}")}));
+        cx.add(Kind::Op, &list, "corpus", 0, None, 1, json!({"corpus": format!("deep-list-{depth}")}));
         let sel = format!("{}x{}", "{a".repeat(depth), "}".repeat(depth));
-        cx.add(Kind::Op, &sel, "corpus", 0, None, true, json!({"corpus": format!("deep-selection-{depth}")}));
+        cx.add(Kind::Op, &sel, "corpus", 0, None, 1, json!({"corpus": format!("deep-selection-{depth}")}));
         let ty = format!("type A{{f:{}Int{}}}", "[".repeat(depth), "]!".repeat(depth));
-        cx.add(Kind::Ts, &ty, "corpus", 0, None, true, json!({"corpus": format!("deep-type-{depth}")}));
+        cx.add(Kind::Ts, &ty, "corpus", 0, None, 1, json!({"corpus": format!("deep-type-{depth}")}));
         let obj = format!("{{a(x:{}1{})}}", "{k:".repeat(depth), "}".repeat(depth));
-        cx.add(Kind::Op, &obj, "corpus", 0, None, true, json!({"corpus": format!("deep-object-{depth}")}));
+        cx.add(Kind::Op, &obj, "corpus", 0, None, 1, json!({"corpus": format!("deep-object-{depth}")}));
     }
     // 1. the repository's own parser test inputs (dedented; original too when short enough)
     for (kind, text) in repo_test_inputs(thorough) {
         let d = dedent(&text);
-        cx.add(kind, &d, "repo-tests", 0, None, true, json!({}));
+        cx.add(kind, &d, "repo-tests", 0, None, 1, json!({}));
         if let Some(toks) = lex(&d) {
             let canon = render_plain(&toks);
-            let (added, ce) = cx.add(kind, &canon, "repo-tests-canonical", 0, None, true, json!({}));
+            let (added, ce) = cx.add(kind, &canon, "repo-tests-canonical", 0, None, 1, json!({}));
             if !added { continue; }
             let tv = Trivia { heavy: 5, lone_cr: false, bom: true, comments: true, crlf: true };
             let t = render_trivia(&mut rng, &toks, &tv);
-            cx.add(kind, &t, "repo-tests-trivia", 1, Some(&ce), true, json!({"canonical": canon}));
+            cx.add(kind, &t, "repo-tests-trivia", 1, Some(&ce), 1, json!({"canonical": canon}));
         }
     }
 
@@ -988,7 +991,7 @@ fn main() {
         };
         // an operation text through the type-system entry point and vice versa, now and then
         let kind = if rng.chance(1, 10) { if kind == Kind::Op { Kind::Ts } else { Kind::Op } } else { kind };
-        cx.add(kind, &text, "malformed", rng.below(3), None, false, json!({}));
+        cx.add(kind, &text, "malformed", rng.below(3), None, 0, json!({}));
     }
 
     let n = cx.cases.len();
@@ -1005,32 +1008,32 @@ fn main() {
 
 /// canonical text + variants with the same denotation (trivia, leading separators, shorthand, block strings)
 fn variants(cx: &mut Ctx, rng: &mut Rng, kind: Kind, text: &str, stream: &str, constructs: &[&str]) {
-    let Some(toks) = lex(text) else { cx.add(kind, text, stream, 0, None, false, json!({"note": "not lexable by the spec lexer"})); cx.bump("GENERATOR_TEXT_NOT_LEXABLE"); return; };
+    let Some(toks) = lex(text) else { cx.add(kind, text, stream, 0, None, 0, json!({"note": "not lexable by the spec lexer"})); cx.bump("GENERATOR_TEXT_NOT_LEXABLE"); return; };
     let canon = render_plain(&toks);
-    let (added, ce) = cx.add(kind, &canon, stream, 0, None, true, json!({"variant": "canonical", "constructs": constructs}));
+    let (added, ce) = cx.add(kind, &canon, stream, 0, None, 1, json!({"variant": "canonical", "constructs": constructs}));
     if !added || ce.is_none() { return; }
     let base = json!({"canonical": canon, "constructs": constructs});
     // trivia only
     let tv = Trivia { heavy: rng.range(2, 8), lone_cr: false, bom: rng.chance(1, 2), comments: true, crlf: rng.chance(1, 2) };
     let t = render_trivia(rng, &toks, &tv);
-    cx.add(kind, &t, stream, rng.below(3), Some(&ce), true, merge(&base, json!({"variant": "trivia"})));
+    cx.add(kind, &t, stream, rng.below(3), Some(&ce), 1, merge(&base, json!({"variant": "trivia"})));
     // lone CR as line terminator (known finding: positions)
     if rng.chance(1, 6) {
         let tv = Trivia { heavy: 4, lone_cr: true, bom: false, comments: rng.chance(1, 2), crlf: false };
         let t = render_trivia(rng, &toks, &tv);
-        cx.add(kind, &t, stream, 0, Some(&ce), true, merge(&base, json!({"variant": "trivia-lone-cr"})));
+        cx.add(kind, &t, stream, 0, Some(&ce), 1, merge(&base, json!({"variant": "trivia-lone-cr"})));
     }
     // leading | and &
     let (t2, ch) = if kind == Kind::Ts { add_leading_separators(rng, &toks) } else { (vec![], false) };
     if ch {
         let tv = Trivia { heavy: 2, lone_cr: false, bom: false, comments: false, crlf: false };
         let t = render_trivia(rng, &t2, &tv);
-        cx.add(kind, &t, stream, 0, Some(&ce), true, merge(&base, json!({"variant": "leading-separators"})));
+        cx.add(kind, &t, stream, 0, Some(&ce), 1, merge(&base, json!({"variant": "leading-separators"})));
     }
     // anonymous query shorthand
     if kind == Kind::Op {
         let (t2, ch) = to_shorthand(&toks);
-        if ch { let t = render_plain(&t2); cx.add(kind, &t, stream, 0, Some(&ce), true, merge(&base, json!({"variant": "shorthand"}))); }
+        if ch { let t = render_plain(&t2); cx.add(kind, &t, stream, 0, Some(&ce), 1, merge(&base, json!({"variant": "shorthand"}))); }
     }
     // block strings for quoted strings of the same value
     if rng.chance(1, 2) {
@@ -1038,7 +1041,7 @@ fn variants(cx: &mut Ctx, rng: &mut Rng, kind: Kind, text: &str, stream: &str, c
         let (t2, ch) = to_block(rng, &toks, indent);
         if ch {
             let t = render_plain(&t2);
-            cx.add(kind, &t, stream, 0, Some(&ce), true, merge(&base, json!({"variant": if indent { "block-string-indented" } else { "block-string-simple" }})));
+            cx.add(kind, &t, stream, 0, Some(&ce), 1, merge(&base, json!({"variant": if indent { "block-string-indented" } else { "block-string-simple" }})));
         }
     }
 }
